@@ -8,6 +8,10 @@ From ONL Require Import Elem.Packet Elem.StoreQ Elem.StoreQProofs Elem.HeapList 
   Elem.WFQServerTrace Elem.WFQ Elem.WFQProofs Elem.VC Elem.VCProofs.
 Import ListNotations.
 
+(* Remark (independence of instances): a scheduler instance is one [srv] record; [act] reads and writes nothing
+   else, so two instances in one simulation cannot influence each other in the model by construction.  Of the
+   code this is checked by the two-instance cases of props/part_wfq.py (each instance replayed against its own
+   copy of the model, plus the independence monitor). *)
 Definition wcfg_ok (cfg : wcfg) : Prop :=
   0 < wrate cfg /\ forall c w, zlookup c (wweights cfg) = Some w -> (0 < w)%Z.
 Definition vcfg_ok (cfg : vcfg) : Prop :=
@@ -97,6 +101,9 @@ Section W.
   Theorem wfq_stamp_order_service acts s' tr :
     wadm cfg acts -> wfq_run cfg (wfq0 cfg) acts = Some (s', tr) -> sel_ok (WS cfg) (wcls cfg) (wfq0 cfg) None tr.
   Proof. intros C H. apply (srv_stamp_order_gen _ _ rp _ _ _ D acts _ _ _ (reach0 _ _ _ _) C H). Qed.
+
+  Theorem wfq_store_distinct_keys s : R s -> distinct_keys entry_ltb (items (store s)).
+  Proof. apply (srv_store_distinct_keys _ _ rp _ _ _ D). Qed.
 
   Theorem wfq_stamp : wfix_first cfg = true -> forall s p,
     R s -> wconf cfg p ->
@@ -207,6 +214,9 @@ Section V.
   Theorem vc_counters s :
     R s -> (forall f, qcount s f = cnt f (held (VS cfg) s) /\ qbytes s f = byt f (held (VS cfg) s)) /\ nrecv s = Z.of_nat (seq s).
   Proof. apply srv_counters. Qed.
+
+  Theorem vc_store_distinct_keys s : R s -> distinct_keys entry_ltb (items (store s)).
+  Proof. apply (srv_store_distinct_keys _ _ rp _ _ _ D). Qed.
 
   Theorem vc_stamp_order_service acts s' tr :
     vadm cfg acts -> vc_run cfg (vc0 cfg) acts = Some (s', tr) -> sel_ok (VS cfg) (vcls cfg) (vc0 cfg) None tr.
